@@ -1,10 +1,12 @@
 package engine
 
 import (
+	"bytes"
 	"fmt"
 	"strconv"
 	"strings"
 	"testing"
+	"unicode/utf8"
 
 	"google.golang.org/grpc/codes"
 
@@ -146,11 +148,16 @@ func genMixedRequest(r *core.Rand, id int, limit int, allowFaults bool) ReqSpec 
 				h.Steps = append(h.Steps, HStep{Op: "sendall"})
 			}
 		default:
-			h.Steps = [][]HStep{
+			scripts := [][]HStep{
 				{{Op: "echo"}, {Op: "sendall"}},
 				{{Op: "recvall"}, {Op: "sendall"}},
 				{{Op: "sendall"}, {Op: "recvall"}},
-			}[r.Intn(3)]
+			}
+			if strings.HasPrefix(sp.Proto, "grpc") {
+				// two goroutines on one stream, one for each direction
+				scripts = append(scripts, []HStep{{Op: "duplex"}})
+			}
+			h.Steps = scripts[r.Intn(len(scripts))]
 		}
 	}
 	if r.Chance(1, 6) {
@@ -177,7 +184,7 @@ func genMixedRequest(r *core.Rand, id int, limit int, allowFaults bool) ReqSpec 
 			}
 		}
 	}
-	if sp.Proto == "http" && r.Chance(1, 2) {
+	if (sp.Proto == "http" || strings.HasPrefix(sp.Proto, "grpcweb")) && r.Chance(1, 2) {
 		sp.Fault.Err = "ueof"
 	}
 	addZeroMessages(r, &sp)
@@ -239,7 +246,7 @@ func genC13(r *core.Rand, run int) *MuxScenario {
 		// the call fails, the pools and everybody else must not notice
 		p := ReqSpec{ID: k + 1, Proto: r.PickS("grpc", "grpcweb"), Codec: "proto", Method: "bidi", Compress: true, Poison: true, Weight: 4,
 			Msgs:    []MsgSpec{{Size: r.Pick(0, 10, 100), Seed: r.U64() >> 8}},
-			Handler: HandlerSpec{FailCode: int(codes.Aborted), Steps: []HStep{{Op: "recvall"}, {Op: "sendall"}}, Resps: []MsgSpec{{Size: 5, Seed: 1}}}}
+			Handler: HandlerSpec{FailCode: int(codes.Aborted), PassErr: r.Chance(1, 2), Steps: []HStep{{Op: "recvall"}, {Op: "sendall"}}, Resps: []MsgSpec{{Size: 5, Seed: 1}}}}
 		if proxied {
 			p.Method = "files" // a local service in the proxied mix
 		}
@@ -300,7 +307,15 @@ func runC13(t *testing.T, rc *RunCtx) *RunResult {
 	for _, rs := range mr.reqs {
 		var v *Violation
 		if rs.spec.Poison {
-			continue // expected to fail; judged only by the global invariants (no panic, it returns)
+			// expected to fail; judged by the global invariants (no panic, it
+			// returns) and by what its status text quotes: whatever a codec or
+			// a decompressor says about the bytes it refused, they are this
+			// request's bytes
+			if v := foreignBytesInStatus(mr, rs); v != nil {
+				res.Violation = v
+				return res
+			}
+			continue
 		}
 		if rs.spec.Backend != "" {
 			v = oracleProxy(mr, rs, &res.Counters)
@@ -316,4 +331,85 @@ func runC13(t *testing.T, rc *RunCtx) *RunResult {
 		}
 	}
 	return res
+}
+
+// looseUnescape undoes Go / C style escapes (\xNN, \uNNNN, \n, \", ...) wherever
+// they occur in s, whatever else s contains.
+func looseUnescape(s string) []byte {
+	out := make([]byte, 0, len(s))
+	hex := func(t string) (int, bool) {
+		v, err := strconv.ParseUint(t, 16, 32)
+		return int(v), err == nil
+	}
+	for i := 0; i < len(s); i++ {
+		if s[i] != '\\' || i+1 >= len(s) {
+			out = append(out, s[i])
+			continue
+		}
+		switch c := s[i+1]; c {
+		case 'x':
+			if i+4 <= len(s) {
+				if v, ok := hex(s[i+2 : i+4]); ok {
+					out = append(out, byte(v))
+					i += 3
+					continue
+				}
+			}
+		case 'u':
+			if i+6 <= len(s) {
+				if v, ok := hex(s[i+2 : i+6]); ok {
+					out = utf8.AppendRune(out, rune(v))
+					i += 5
+					continue
+				}
+			}
+		case 'n', 't', 'r', 'a', 'b', 'f', 'v', '0':
+			out = append(out, map[byte]byte{'n': '\n', 't': '\t', 'r': '\r', 'a': 7, 'b': 8, 'f': 12, 'v': 11, '0': 0}[c])
+			i++
+			continue
+		case '"', '\'', '\\':
+			out = append(out, c)
+			i++
+			continue
+		}
+		out = append(out, s[i])
+	}
+	return out
+}
+
+// foreignBytesInStatus looks for the self-describing header of any other
+// request's message (either direction) in the text of rs's final status, as it
+// stands and with escapes undone.
+func foreignBytesInStatus(mr *muxRun, rs *reqState) *Violation {
+	cv := rs.decodeResponse(rs.q.response())
+	if cv == nil || cv.Status.Message == "" {
+		return nil
+	}
+	texts := [][]byte{[]byte(cv.Status.Message), looseUnescape(cv.Status.Message)}
+	for _, o := range mr.reqs {
+		if o == rs || o.spec.payloadID() == rs.spec.payloadID() {
+			continue
+		}
+		look := func(dir byte, ms []MsgSpec) *Violation {
+			for i, m := range ms {
+				if m.Zero || m.Size < 8 {
+					continue
+				}
+				p := payloadFor(o.spec.payloadID(), i, dir, m)
+				for _, t := range texts {
+					if bytes.Contains(t, p[:7]) {
+						return violationf("C13", "foreign-bytes-in-status", rs.spec.Proto, "request %d (%s) failed as it should, but its status text quotes bytes of request %d's message %c%d: %q", rs.spec.ID, rs.spec.Proto, o.spec.ID, dir, i, cv.Status.Message)
+					}
+				}
+			}
+			return nil
+		}
+		if v := look('C', o.spec.Msgs); v != nil {
+			return v
+		}
+		if v := look('S', o.spec.Handler.Resps); v != nil {
+			return v
+		}
+	}
+	return nil
 }
